@@ -13,6 +13,10 @@
       as conn is concerned);
     - [LCloseTask id rid]: the body of a `go c.closeSubscription(id)` spawned by a run of [rid];
     - [LSocketClose] / [LMalformed]: ReadJSON fails, ServeJSONSocket returns, closeSubscriptions runs;
+    - [LBreak]: the socket starts failing writes; every later write is lost and makes writeOrClose close
+      the socket, after which the reader can only observe the close;
+    - [LRegister]: a resolver registers a reactive resource (the connection does not react; the release
+      obligation of the rerunner interface is layered on top in Server/Release.v);
     - [LInvalidate], [LCtxCancel]: environment events the connection itself does not react to (when a
       rerunner re-runs is the business of the reactive package, C04; this model over-approximates:
       a live rerunner may complete a run at any time).
@@ -67,10 +71,12 @@ Record state := mk_state {
   st_log : list logev;                 (* SubscriptionLogger calls, newest first *)
   st_tasks : list (nat * nat);         (* spawned, not yet executed `go c.closeSubscription(id)` (id, spawning rerunner) *)
   st_pend : option envelope;           (* error reply the reader goroutine is about to write *)
-  st_closed : bool                     (* ServeJSONSocket has returned *)
+  st_closed : bool;                    (* ServeJSONSocket has returned *)
+  st_wfail : bool;                     (* socket.WriteJSON fails from now on (peer gone, broken pipe) *)
+  st_sockclosed : bool                 (* a write has failed: writeOrClose called socket.Close(), the next ReadJSON fails *)
 }.
 
-Definition init : state := mk_state (fun _ => None) 0 [] [] [] [] None false.
+Definition init : state := mk_state (fun _ => None) 0 [] [] [] [] None false false false.
 
 Inductive outcome :=
 | OOk (v : json)          (* Execute returned v *)
@@ -95,7 +101,9 @@ Inductive label :=
 | LInvalidate (rid : nat)
 | LCtxCancel
 | LCloseTask (id rid : nat)
-| LSocketClose.
+| LSocketClose
+| LRegister (rid res : nat)   (* a resolver of a computation of [rid] registers resource [res] (see Server/Release.v) *)
+| LBreak.                     (* from now on socket.WriteJSON fails *)
 
 (** * Small helpers *)
 
@@ -146,19 +154,21 @@ Definition err_env (id : nat) (msg : string) : envelope := mk_env id EError (JSt
 (** * State updates *)
 
 Definition set_pend (s : state) (e : envelope) : state :=
-  mk_state (st_runners s) (st_next s) (st_subs s) (st_out s) (st_log s) (st_tasks s) (Some e) (st_closed s).
+  mk_state (st_runners s) (st_next s) (st_subs s) (st_out s) (st_log s) (st_tasks s) (Some e) (st_closed s) (st_wfail s) (st_sockclosed s).
 
+(** writeOrClose: the envelope reaches the socket, or - when WriteJSON fails - is lost and the socket is closed. *)
 Definition push_out (s : state) (e : envelope) : state :=
-  mk_state (st_runners s) (st_next s) (st_subs s) (e :: st_out s) (st_log s) (st_tasks s) (st_pend s) (st_closed s).
+  mk_state (st_runners s) (st_next s) (st_subs s) (if st_wfail s then st_out s else e :: st_out s) (st_log s)
+           (st_tasks s) (st_pend s) (st_closed s) (st_wfail s) (st_sockclosed s || st_wfail s).
 
 Definition set_runner (s : state) (rid : nat) (r : runner) : state :=
-  mk_state (upd (st_runners s) rid r) (st_next s) (st_subs s) (st_out s) (st_log s) (st_tasks s) (st_pend s) (st_closed s).
+  mk_state (upd (st_runners s) rid r) (st_next s) (st_subs s) (st_out s) (st_log s) (st_tasks s) (st_pend s) (st_closed s) (st_wfail s) (st_sockclosed s).
 
 Definition add_task (s : state) (id rid : nat) : state :=
-  mk_state (st_runners s) (st_next s) (st_subs s) (st_out s) (st_log s) ((id, rid) :: st_tasks s) (st_pend s) (st_closed s).
+  mk_state (st_runners s) (st_next s) (st_subs s) (st_out s) (st_log s) ((id, rid) :: st_tasks s) (st_pend s) (st_closed s) (st_wfail s) (st_sockclosed s).
 
 Definition set_tasks (s : state) (t : list (nat * nat)) : state :=
-  mk_state (st_runners s) (st_next s) (st_subs s) (st_out s) (st_log s) t (st_pend s) (st_closed s).
+  mk_state (st_runners s) (st_next s) (st_subs s) (st_out s) (st_log s) t (st_pend s) (st_closed s) (st_wfail s) (st_sockclosed s).
 
 (** `c.subscriptions[id] = reactive.NewRerunner(...)`, preceded by `Subscribe` when [logsub].
     A map assignment replaces an existing entry (only the original handleMutate can get here with one). *)
@@ -167,7 +177,7 @@ Definition accept (s : state) (id : nat) (k : kind) (logsub : bool) : state :=
   mk_state (upd (st_runners s) rid (mk_runner id k Live true JNull)) (S rid)
            ((id, rid) :: remove_id id (st_subs s)) (st_out s)
            (if logsub then LgSub id :: st_log s else st_log s)
-           (st_tasks s) (st_pend s) (st_closed s).
+           (st_tasks s) (st_pend s) (st_closed s) (st_wfail s) (st_sockclosed s).
 
 Definition stop_in (m : nat -> option runner) (rid : nat) : nat -> option runner :=
   match m rid with Some r => upd m rid (set_stat r Stopped) | None => m end.
@@ -175,7 +185,7 @@ Definition stop_in (m : nat -> option runner) (rid : nat) : nat -> option runner
 (** The body of `if runner, ok := c.subscriptions[id]; ok { Stop; delete; Unsubscribe }`. *)
 Definition close_entry (s : state) (id rid : nat) : state :=
   mk_state (stop_in (st_runners s) rid) (st_next s) (remove_id id (st_subs s)) (st_out s)
-           (LgUnsub id :: st_log s) (st_tasks s) (st_pend s) (st_closed s).
+           (LgUnsub id :: st_log s) (st_tasks s) (st_pend s) (st_closed s) (st_wfail s) (st_sockclosed s).
 
 Definition close_id (s : state) (id : nat) : state :=
   match find_id id (st_subs s) with Some rid => close_entry s id rid | None => s end.
@@ -188,10 +198,15 @@ Definition close_all (cfg : config) (s : state) : state :=
                      end)
            (st_next s) [] (st_out s)
            ((if c_fix_closelog cfg then map (fun p => LgUnsub (fst p)) (st_subs s) else []) ++ st_log s)
-           (st_tasks s) (st_pend s) true.
+           (st_tasks s) (st_pend s) true (st_wfail s) (st_sockclosed s).
 
-Definition ready (s : state) : bool :=
+(** The reader goroutine is between two messages.  ([st_sockclosed] does not disable the message labels:
+    ReadJSON may have handed over a message just before a failing write of some computation closed the
+    socket, and that message is then still handled.  The model lets any number of queued messages through,
+    the code at most that one; the next ReadJSON fails, which is [LSocketClose].) *)
+Definition ready0 (s : state) : bool :=
   negb (st_closed s) && match st_pend s with None => true | Some _ => false end.
+Definition ready (s : state) : bool := ready0 s.
 
 Definition do_subscribe (cfg : config) (s : state) (id : nat) (q : qres) : state :=
   match q with
@@ -263,12 +278,13 @@ Definition step (cfg : config) (s : state) (l : label) : option state :=
   | LEcho id => if ready s then Some (push_out s (mk_env id EEcho JNull None)) else None
   | LUrl id ok => if ready s then Some (if ok then s else set_pend s (err_env id internal_error)) else None
   | LUnknown id => if ready s then Some (set_pend s (err_env id "unknown message type")) else None
-  | LMalformed | LSocketClose => if ready s then Some (close_all cfg s) else None
+  | LMalformed | LSocketClose => if ready0 s then Some (close_all cfg s) else None
   | LFlush =>
       match st_pend s with
       | Some e => if st_closed s then None
-                  else Some (mk_state (st_runners s) (st_next s) (st_subs s) (e :: st_out s) (st_log s)
-                                      (st_tasks s) None false)
+                  else Some (mk_state (st_runners s) (st_next s) (st_subs s)
+                                      (if st_wfail s then st_out s else e :: st_out s) (st_log s)
+                                      (st_tasks s) None false (st_wfail s) (st_sockclosed s || st_wfail s))
       | None => None
       end
   | LRun rid o =>
@@ -277,6 +293,10 @@ Definition step (cfg : config) (s : state) (l : label) : option state :=
       | None => None
       end
   | LInvalidate _ | LCtxCancel => Some s
+  | LRegister _ _ => Some s
+  | LBreak =>
+      Some (mk_state (st_runners s) (st_next s) (st_subs s) (st_out s) (st_log s) (st_tasks s) (st_pend s)
+                     (st_closed s) true (st_sockclosed s))
   | LCloseTask id rid =>
       if mem_task (id, rid) (st_tasks s) then Some (do_close_task cfg s id rid) else None
   end.
@@ -313,101 +333,3 @@ Definition updates_of (rid : nat) (s : state) : list envelope :=
 
 Definition client_state (rid : nat) (s : state) : json := client_fold (map e_msg (updates_of rid s)).
 
-(** * Correspondence cases *)
-
-Definition etype_code (t : etype) : nat :=
-  match t with EUpdate => 0 | EResult => 1 | EError => 2 | EEcho => 3 end.
-
-Record obs_env := mk_obs { o_id : nat; o_type : nat; o_msg : json; o_src : option nat }.
-
-Definition opt_nat_eqb (a b : option nat) : bool :=
-  match a, b with
-  | None, None => true
-  | Some x, Some y => Nat.eqb x y
-  | _, _ => false
-  end.
-
-Definition env_matches (e : envelope) (o : obs_env) : bool :=
-  Nat.eqb (e_id e) (o_id o) && Nat.eqb (etype_code (e_type e)) (o_type o)
-  && json_eqb (norm (e_msg e)) (o_msg o) && opt_nat_eqb (e_src e) (o_src o).
-
-Fixpoint all2 {A B} (f : A -> B -> bool) (l1 : list A) (l2 : list B) : bool :=
-  match l1, l2 with
-  | [], [] => true
-  | a :: t1, b :: t2 => f a b && all2 f t1 t2
-  | _, _ => false
-  end.
-
-Definition logev_eqb (a b : logev) : bool :=
-  match a, b with
-  | LgSub i, LgSub j | LgUnsub i, LgUnsub j => Nat.eqb i j
-  | _, _ => false
-  end.
-
-(** Replays the labels; each [LRun] label may carry the `Previous` value the implementation's
-    computation was given, which must be the model's [r_prev].  Returns the final state, or the
-    position of the first label that is not enabled / whose `Previous` differs. *)
-Inductive replay_res := RDone (s : state) | RStuck (pos : nat) | RPrev (pos : nat).
-
-Fixpoint replay (cfg : config) (s : state) (pos : nat) (h : list (label * option json)) : replay_res :=
-  match h with
-  | [] => RDone s
-  | (l, p) :: t =>
-      let prev_ok :=
-          match l, p with
-          | LRun rid _, Some pv =>
-              match st_runners s rid with
-              | Some r => json_eqb (norm (r_prev r)) pv
-              | None => true
-              end
-          | _, _ => true
-          end in
-      if prev_ok
-      then match step cfg s l with
-           | Some s' => replay cfg s' (S pos) t
-           | None => RStuck pos
-           end
-      else RPrev pos
-  end.
-
-Record case := mk_case {
-  k_cfg : config;
-  k_labels : list (label * option json);
-  k_out : list obs_env;               (* every WriteJSON, in order *)
-  k_log : list logev;                 (* every SubscriptionLogger call, in order *)
-  k_ids : list nat;                   (* ids used in this case *)
-  k_clients : list (nat * json);      (* (rerunner, state of the merge.ts client after folding its updates) *)
-  k_live : list nat                   (* ids the implementation still had subscribed at the end (none after close) *)
-}.
-
-(** Component codes: 1 a label is not enabled in the model; 2 `Previous` differs; 3 envelopes differ;
-    4 logger calls differ (per id); 5 merge.ts client state differs from the model's fold;
-    6 pending close tasks or pending reply left at the end / live ids differ. *)
-Definition check_case (c : case) : list nat :=
-  match replay (k_cfg c) init 0 (k_labels c) with
-  | RStuck _ => [1]
-  | RPrev _ => [2]
-  | RDone s =>
-      (if all2 env_matches (out_of s) (k_out c) then [] else [3]) ++
-      (if forallb (fun id => all2 logev_eqb (log_for id (log_of s)) (log_for id (k_log c))) (k_ids c)
-          && Nat.eqb (List.length (st_log s)) (List.length (k_log c)) then [] else [4]) ++
-      (if forallb (fun p => json_eqb (norm (client_state (fst p) s)) (snd p)) (k_clients c) then [] else [5]) ++
-      (if forallb (fun id => has_id id (st_subs s)) (k_live c)
-          && Nat.eqb (List.length (st_subs s)) (List.length (k_live c)) then [] else [6])
-  end.
-
-Fixpoint mismatches_from_sparse (_ : nat) (cs : list (nat * case)) : list (nat * list nat) :=
-  match cs with
-  | [] => []
-  | (i, c) :: t => match check_case c with
-                   | [] => mismatches_from_sparse 0 t
-                   | l => (i, l) :: mismatches_from_sparse 0 t
-                   end
-  end.
-
-(** Position of the first problem of a case, for debugging a mismatch by hand. *)
-Definition where_stuck (c : case) : option nat :=
-  match replay (k_cfg c) init 0 (k_labels c) with
-  | RStuck p | RPrev p => Some p
-  | RDone _ => None
-  end.
